@@ -39,8 +39,8 @@ theorem caseHit_weaken (T : Table) (st : TB) (v : Int) (cd : Kind × Kind × Int
   exact h.2
 
 /-- once raised, the ghost flag stays raised -/
-theorem loop_tie_mono (aware sw : Bool) (T : Table) (S : Matrix) (o : Int) (r q : List Nat) (R C : Nat) :
-    ∀ (fuel : Nat) (st st' : TB), tbLoop aware sw T S o r q R C fuel st = .ok st' → st.tie = true →
+theorem loop_tie_mono (aware cross sw : Bool) (T : Table) (S : Matrix) (o : Int) (r q : List Nat) (R C : Nat) :
+    ∀ (fuel : Nat) (st st' : TB), tbLoop aware cross sw T S o r q R C fuel st = .ok st' → st.tie = true →
       st'.tie = true := by
   intro fuel
   induction fuel with
@@ -60,7 +60,7 @@ theorem loop_tie_mono (aware sw : Bool) (T : Table) (S : Matrix) (o : Int) (r q 
       by_cases hsw : (sw = true ∧ v = 0)
       · rw [if_pos hsw] at hl; cases hl; exact ht
       rw [if_neg hsw] at hl
-      cases hfind : (cands sw S o (r.getD (st.i - 1) 0) (q.getD (st.j - 1) 0)).find?
+      cases hfind : (cands cross sw S o (r.getD (st.i - 1) 0) (q.getD (st.j - 1) 0)).find?
           (caseHit aware T st v) with
       | none => rw [hfind] at hl; cases hl
       | some cd =>
@@ -71,9 +71,9 @@ theorem loop_tie_mono (aware sw : Bool) (T : Table) (S : Matrix) (o : Int) (r q 
         rw [move_tie, ht]; rfl
 
 /-- a layer-blind traceback that never raises the flag is a layer-aware traceback -/
-theorem loop_legacy_agree (sw : Bool) (T : Table) (S : Matrix) (o : Int) (r q : List Nat) (R C : Nat) :
-    ∀ (fuel : Nat) (st st' : TB), tbLoop false sw T S o r q R C fuel st = .ok st' → st'.tie = false →
-      tbLoop true sw T S o r q R C fuel st = .ok st' := by
+theorem loop_legacy_agree (cross sw : Bool) (T : Table) (S : Matrix) (o : Int) (r q : List Nat) (R C : Nat) :
+    ∀ (fuel : Nat) (st st' : TB), tbLoop false cross sw T S o r q R C fuel st = .ok st' → st'.tie = false →
+      tbLoop true cross sw T S o r q R C fuel st = .ok st' := by
   intro fuel
   induction fuel with
   | zero => intro st st' hl _; simp only [tbLoop] at hl ⊢; exact hl
@@ -92,7 +92,7 @@ theorem loop_legacy_agree (sw : Bool) (T : Table) (S : Matrix) (o : Int) (r q : 
       by_cases hsw : (sw = true ∧ v = 0)
       · rw [if_pos hsw] at hl ⊢; exact hl
       rw [if_neg hsw] at hl ⊢
-      cases hfind : (cands sw S o (r.getD (st.i - 1) 0) (q.getD (st.j - 1) 0)).find?
+      cases hfind : (cands cross sw S o (r.getD (st.i - 1) 0) (q.getD (st.j - 1) 0)).find?
           (caseHit false T st v) with
       | none => rw [hfind] at hl; cases hl
       | some cd =>
@@ -103,7 +103,7 @@ theorem loop_legacy_agree (sw : Bool) (T : Table) (S : Matrix) (o : Int) (r q : 
         have hlay : mv = st.layer := by
           cases hm : (st.move (decide (st.i = R ∧ st.j = C)) mv pl v
               (vget ((predOf T st.i st.j mv).get pl))).tie with
-          | true => rw [loop_tie_mono false sw T S o r q R C _ _ _ hl hm] at ht; cases ht
+          | true => rw [loop_tie_mono false cross sw T S o r q R C _ _ _ hl hm] at ht; cases ht
           | false =>
             rw [move_tie] at hm
             simp only [Bool.or_eq_false_iff, decide_eq_false_iff_not, ne_eq, Decidable.not_not] at hm
@@ -127,7 +127,7 @@ theorem alignT_legacy_agree (w : Which) (S : Matrix) (o : Int) (r q : List Nat) 
     · cases h
     · rename_i st hl
       have ht : st.tie = false := by split at h <;> exact (Prod.mk.inj (Except.ok.inj h)).2
-      rw [loop_legacy_agree false _ S o r q _ _ _ _ st hl ht]
+      rw [loop_legacy_agree true false _ S o r q _ _ _ _ st hl ht]
       exact h
   | sw =>
     simp only [alignT, swAlignT] at h ⊢
@@ -135,7 +135,7 @@ theorem alignT_legacy_agree (w : Which) (S : Matrix) (o : Int) (r q : List Nat) 
     · cases h
     · rename_i st hl
       have ht : st.tie = false := (Prod.mk.inj (Except.ok.inj h)).2
-      rw [loop_legacy_agree true _ S o r q _ _ _ _ st hl ht]
+      rw [loop_legacy_agree true true _ S o r q _ _ _ _ st hl ht]
       exact h
   | fit =>
     simp only [alignT, fitAlignT] at h ⊢
@@ -143,7 +143,7 @@ theorem alignT_legacy_agree (w : Which) (S : Matrix) (o : Int) (r q : List Nat) 
     · cases h
     · rename_i st hl
       have ht : st.tie = false := by split at h <;> exact (Prod.mk.inj (Except.ok.inj h)).2
-      rw [loop_legacy_agree false _ S o r q _ _ _ _ st hl ht]
+      rw [loop_legacy_agree true false _ S o r q _ _ _ _ st hl ht]
       exact h
 
 end Biogo.Proofs.TraceLegacy
